@@ -802,6 +802,12 @@ func (e *pExec) checkBlock(site string, n int, err error, flags int) {
 		if o == e.bc.WindowSize {
 			e.cnt.inc("p.match.offset=window")
 		}
+		if o >= 65536 {
+			e.cnt.inc("p.match.offset>=64K")
+		}
+		if pos >= 65536 {
+			e.cnt.inc("p.match.pos>=64K")
+		}
 		if m < e.minM {
 			e.find("C02", "MatchLen below the minimum match length", site, fmt.Sprintf("seq=%d m=%d min=%d", i, m, e.minM))
 		}
